@@ -11,7 +11,9 @@
 
 Time is `Nat` milliseconds.  The history after the call is a list of timed items that can reach the waiter: a change
 of the watched state variable, an event of the awaited type, or the cancellation of the waiting task (what
-`task.unique` / `task.cancel` do).  State triggers are modelled without `state_hold` / `state_hold_false` (C05).
+`task.unique` / `task.cancel` do).  `state_hold` / `state_hold_false` are modelled by separate executable hold
+machines (`Legacy.loopH`, `New.loopH`, used when the state trigger has a hold) that are tied to the code by the
+correspondence check; the first-of theorems speak about calls without holds.
 -/
 namespace PsModel.C15
 
@@ -28,6 +30,17 @@ structure StateTrig where
   expr : Nat → Option Bool
   checkNow : Bool
   parseOK : Bool
+  /-- `state_hold` (ms): the expression has to stay true that long -/
+  hold : Option Nat := Option.none
+  /-- `state_hold_false` (ms): the expression has to have been false that long before it turns true -/
+  holdFalse : Option Nat := Option.none
+
+/-- is the start-up check allowed to end the call at once?  (`state_check_now` without `state_hold`; with
+`state_hold` a true check only starts the hold, and `state_hold_false` alone only records the initial value) -/
+def StateTrig.immediate (s : StateTrig) : Bool := s.checkNow && s.hold.isNone
+
+/-- `check_state_expr_on_start = state_check_now or state_hold_false is not None` -/
+def StateTrig.checkOnStart (s : StateTrig) : Bool := s.checkNow || s.holdFalse.isSome
 
 /-- event trigger: optional filter over the event's payload (`none` = raises), and whether the filter text parses -/
 structure EvTrig where
@@ -264,10 +277,10 @@ def stateStage (cfg : Cfg) (q : Nat) (tb : Tables) (v0 : Nat) (call : Nat) : Exc
   | Option.none => .ok tb
   | some s =>
     if !s.parseOK then .error (.exc call .parse, tb)
-    else if s.checkNow then
+    else if s.checkOnStart then
       match s.expr v0 with
       | Option.none => .error (.exc call .eval, tb)
-      | some true => .error (.ret call (.state Option.none), tb)
+      | some true => if s.immediate then .error (.ret call (.state Option.none), tb) else .ok (tb.stAdd q)
       | some false => .ok (tb.stAdd q)
     else .ok (tb.stAdd q)
 
@@ -308,6 +321,108 @@ def keeps (fl : Flags) : Exit → Bool
   | .cancelled _ => fl.legacyNoFinally
   | _ => false
 
+/-! ### the wait loop with `state_hold` / `state_hold_false` (executable mirror, tied by correspondence) -/
+
+/-- the hold variables of the loop: `state_trig_waiting`, `last_state_trig_time`, the value of the change that
+started the pending hold (`state_trig_notify_info`; `none` = the start-up check), `state_false_time` -/
+structure HSt where
+  waiting : Bool
+  last : Nat
+  info : Option Nat
+  falseTime : Option Nat
+deriving DecidableEq, Repr
+
+/-- hold variables after the start-up check -/
+def initH (s : StateTrig) (v0 call : Nat) : HSt :=
+  if s.checkOnStart then
+    let ok := (s.expr v0).getD false
+    let ft := if s.holdFalse.isSome then (if ok then Option.none else some call) else Option.none
+    if s.holdFalse.isSome && !s.checkNow then { waiting := false, last := 0, info := Option.none, falseTime := ft }
+    else if s.hold.isSome && ok then { waiting := true, last := call, info := Option.none, falseTime := ft }
+    else { waiting := false, last := 0, info := Option.none, falseTime := ft }
+  else { waiting := false, last := 0, info := Option.none, falseTime := Option.none }
+
+/-- what a state notification does to the hold variables: end the wait, or continue with new variables -/
+inductive HAct where
+  | stop (e : Exit)
+  | cont (h : HSt)
+
+def stateItemH (s : StateTrig) (t v : Nat) (h : HSt) : HAct :=
+  match s.expr v with
+  | Option.none => .stop (.exc t .eval)
+  | some ok =>
+    -- state_hold_false: `none` = ignore this notification altogether
+    let afterFalse : Option HSt :=
+      match s.holdFalse with
+      | Option.none => some h
+      | some n =>
+        match h.falseTime with
+        | Option.none => if ok then Option.none else some { h with falseTime := some t }
+        | some ft =>
+          if ok then (if t - ft < n then Option.none else some { h with falseTime := Option.none })
+          else some h
+    match afterFalse with
+    | Option.none =>
+      -- "wasn't False, so ignore" / "not False for long enough, start over" (the latter forgets the false time)
+      .cont (match s.holdFalse, h.falseTime with
+             | some _, some _ => if ok then { h with falseTime := Option.none } else h
+             | _, _ => h)
+    | some h1 =>
+      match s.hold with
+      | some _ =>
+        if ok then
+          .cont (if h1.waiting then h1 else { h1 with waiting := true, last := t, info := some v })
+        else if h1.waiting then .cont { h1 with waiting := false }
+        else .cont h1
+      | Option.none => if ok then .stop (.ret t (.state (some v))) else .cont h1
+
+/-- the loop with the hold deadline: a pending hold fires at `last + hold` when that is STRICTLY sooner than the
+time / timeout deadline -/
+def loopH (fl : Flags) (cfg : Cfg) (s : StateTrig) (call : Nat) : Hist → Nat → HSt → Exit
+  | [], anchor, h =>
+    match pre fl cfg call anchor with
+    | some e => e
+    | Option.none =>
+      match dl fl cfg call anchor, h.waiting with
+      | Option.none, false => .waiting
+      | Option.none, true => .ret (h.last + s.hold.getD 0) (.state h.info)
+      | some (d, k), false => retOf d k
+      | some (d, k), true => if h.last + s.hold.getD 0 < d then .ret (h.last + s.hold.getD 0) (.state h.info) else retOf d k
+  | (t, it) :: rest, anchor, h =>
+    match pre fl cfg call anchor with
+    | some e => e
+    | Option.none =>
+      let hd := h.last + s.hold.getD 0
+      let fired : Option Exit :=
+        match dl fl cfg call anchor, h.waiting with
+        | Option.none, false => Option.none
+        | Option.none, true => if hd < t then some (.ret hd (.state h.info)) else Option.none
+        | some (d, k), false => if d < t then some (retOf d k) else Option.none
+        | some (d, k), true =>
+          if hd < d then (if hd < t then some (.ret hd (.state h.info)) else Option.none)
+          else (if d < t then some (retOf d k) else Option.none)
+      match fired with
+      | some e => e
+      | Option.none =>
+        match it with
+        | .state v =>
+          (match stateItemH s t v h with
+           | .stop e => e
+           | .cont h' => loopH fl cfg s call rest t h')
+        | other => onItem cfg t other (loopH fl cfg s call rest t h) (loopH fl cfg s call rest anchor h)
+
+/-- the state trigger with a hold, if any -/
+def holdTrig (cfg : Cfg) : Option StateTrig :=
+  match cfg.state with
+  | some s => if s.hold.isSome || s.holdFalse.isSome then some s else Option.none
+  | Option.none => Option.none
+
+/-- the wait of the call: the plain loop, or the hold loop when `state_hold` / `state_hold_false` is given -/
+def waitLoop (fl : Flags) (cfg : Cfg) (v0 call : Nat) (hist : Hist) : Exit :=
+  match holdTrig cfg with
+  | Option.none => loop fl cfg call hist call
+  | some s => loopH fl cfg s call hist call (initH s v0 call)
+
 /-- one call of `task.wait_until`: `q` = its fresh queue, `tb` = the tables before, `v0` = current value of the
 watched variable, `call` = instant of the call, `hist` = what happens afterwards -/
 def run (fl : Flags) (cfg : Cfg) (q : Nat) (tb : Tables) (v0 : Nat) (call : Nat) (hist : Hist) : Exit × Tables :=
@@ -319,7 +434,7 @@ def run (fl : Flags) (cfg : Cfg) (q : Nat) (tb : Tables) (v0 : Nat) (call : Nat)
     match setup fl cfg q tb v0 call with
     | .error r => r
     | .ok tb1 =>
-      let e := loop fl cfg call hist call
+      let e := waitLoop fl cfg v0 call hist
       (e, if keeps fl e then tb1 else cleanup cfg q tb1)
 
 end Legacy
@@ -381,10 +496,11 @@ def stateStart (cfg : Cfg) (q : Nat) (v0 : Nat) (call : Nat) (s : Started) (tb :
   | some st =>
     let s1 := { s with st := true }
     let tb1 := { tb with stSubs := tb.stSubs ++ [q], tasks := tb.tasks + 1 }
-    if st.checkNow then
+    if st.checkOnStart then
       match st.expr v0 with
       | Option.none => .error (.exc call .eval, stopAll q s1 tb1)
-      | some true => .error (.ret call (.state Option.none), stopAll q s1 tb1)
+      | some true =>
+        if st.immediate then .error (.ret call (.state Option.none), stopAll q s1 tb1) else .ok (s1, tb1)
       | some false => .ok (s1, tb1)
     else .ok (s1, tb1)
 
@@ -442,16 +558,92 @@ def keeps (fl : Flags) : Exit → Bool
   | .cancelled _ => fl.cancelNoStop
   | _ => false
 
+/-! ### the state decorator's `_cycle` with `state_hold` / `state_hold_false` (executable mirror) -/
+
+/-- `true_entered_at`, `false_entered_at`, value of `last_func_args` (`none` = the initial `{"trigger_type": "state"}`) -/
+structure CSt where
+  trueAt : Option Nat
+  falseAt : Option Nat
+  info : Option Nat
+deriving DecidableEq, Repr
+
+/-- `_check_new_state(trig_ok, initial)` at instant `now`: new variables and whether it dispatches -/
+def checkNewState (s : StateTrig) (now : Nat) (ok initial : Bool) (c : CSt) : CSt × Bool :=
+  if ok then
+    let passedC : Bool × CSt :=
+      if s.holdFalse.isNone || initial then (true, c)
+      else
+        match c.falseAt with
+        | some fa => (decide (s.holdFalse.getD 0 ≤ now - fa), { c with falseAt := Option.none })
+        | Option.none => (false, c)
+    if passedC.1 then
+      match s.hold with
+      | Option.none => ({ passedC.2 with trueAt := Option.none }, true)
+      | some hl =>
+        match passedC.2.trueAt with
+        | some ta => if hl ≤ now - ta then ({ passedC.2 with trueAt := Option.none }, true) else (passedC.2, false)
+        | Option.none => ({ passedC.2 with trueAt := some now }, false)
+    else (passedC.2, false)
+  else
+    ({ c with trueAt := Option.none,
+              falseAt := if s.holdFalse.isSome && c.falseAt.isNone then some now else c.falseAt }, false)
+
+/-- the cycle's variables after its start-up part (the immediate dispatch is decided in `stateStart`) -/
+def initC (s : StateTrig) (v0 call : Nat) : CSt :=
+  let c0 : CSt := { trueAt := Option.none, falseAt := Option.none, info := Option.none }
+  if s.checkOnStart then
+    let ok := (s.expr v0).getD false
+    if s.checkNow then (checkNewState s call ok true c0).1
+    else if !ok && s.holdFalse.isSome then { c0 with falseAt := some call } else c0
+  else c0
+
+/-- the wait with a hold: deadlines of the manager (`dl`) and the cycle's own hold timer `trueAt + hold` -/
+def loopH (fl : Flags) (cfg : Cfg) (s : StateTrig) (call : Nat) : Hist → CSt → Exit
+  | [], c =>
+    match dl fl cfg call, c.trueAt with
+    | Option.none, Option.none => .waiting
+    | Option.none, some ta => .ret (ta + s.hold.getD 0) (.state c.info)
+    | some (d, k), Option.none => retOf d k
+    | some (d, k), some ta => if ta + s.hold.getD 0 < d then .ret (ta + s.hold.getD 0) (.state c.info) else retOf d k
+  | (t, it) :: rest, c =>
+    let fired : Option Exit :=
+      match dl fl cfg call, c.trueAt with
+      | Option.none, Option.none => Option.none
+      | Option.none, some ta => if ta + s.hold.getD 0 < t then some (.ret (ta + s.hold.getD 0) (.state c.info)) else Option.none
+      | some (d, k), Option.none => if d < t then some (retOf d k) else Option.none
+      | some (d, k), some ta =>
+        if ta + s.hold.getD 0 < d then
+          (if ta + s.hold.getD 0 < t then some (.ret (ta + s.hold.getD 0) (.state c.info)) else Option.none)
+        else (if d < t then some (retOf d k) else Option.none)
+    match fired with
+    | some e => e
+    | Option.none =>
+      match it with
+      | .state v =>
+        (match s.expr v with
+         | Option.none => .exc t .eval
+         | some ok =>
+           let c1 := if c.trueAt.isNone then { c with info := some v } else c
+           let r := checkNewState s t ok false c1
+           if r.2 then .ret t (.state r.1.info) else loopH fl cfg s call rest r.1)
+      | other => onItem cfg t other (loopH fl cfg s call rest c) (loopH fl cfg s call rest c)
+
+def waitLoop (fl : Flags) (cfg : Cfg) (v0 call : Nat) (hist : Hist) : Exit :=
+  match Legacy.holdTrig cfg with
+  | Option.none => loop fl cfg call hist
+  | some s => loopH fl cfg s call hist (initC s v0 call)
+
 /-- `await dm.wait_until()`: the first dispatch / exception stops everything; see `keeps` for a cancelled waiter -/
-def finish (fl : Flags) (cfg : Cfg) (q : Nat) (call : Nat) (hist : Hist) : Stage → Exit × Tables
+def finish (fl : Flags) (cfg : Cfg) (q : Nat) (v0 call : Nat) (hist : Hist) : Stage → Exit × Tables
   | .error r => r
-  | .ok p => (loop fl cfg call hist, if keeps fl (loop fl cfg call hist) then p.2 else stopAll q p.1 p.2)
+  | .ok p => (waitLoop fl cfg v0 call hist,
+              if keeps fl (waitLoop fl cfg v0 call hist) then p.2 else stopAll q p.1 p.2)
 
 def run (fl : Flags) (cfg : Cfg) (q : Nat) (tb : Tables) (v0 : Nat) (call : Nat) (hist : Hist) : Exit × Tables :=
   if noKwargs cfg then (.ret call .none, tb)
   else if !parseAll cfg then (.exc call .parse, tb)
   else if noDecorators fl cfg then (.exc call .runtime, tb)
-  else finish fl cfg q call hist (start fl cfg q tb v0 call)
+  else finish fl cfg q v0 call hist (start fl cfg q tb v0 call)
 
 end New
 
